@@ -8,6 +8,7 @@ import (
 	"bytes"
 	"encoding/json"
 	"fmt"
+	"hash/fnv"
 	"net"
 	"net/http"
 	"os"
@@ -411,7 +412,10 @@ func (s *Stub) serveLookupd(w http.ResponseWriter, r *http.Request, cl *Cluster,
 		for _, n := range sortedKeysL(me.Nodes) {
 			nd := me.Nodes[n]
 			p := s.peerInfo(cl, n)
+			// nsqlookupd builds this list from a map: the order is arbitrary (here: by a hash of node and topic),
+			// and `tombstones` is parallel to it
 			ts := sorted(nd.Topics)
+			sort.Slice(ts, func(i, j int) bool { return mapOrder(n, ts[i]) < mapOrder(n, ts[j]) })
 			tomb := make([]bool, len(ts))
 			for i, t := range ts {
 				tomb[i] = has(nd.Tomb, t)
@@ -435,6 +439,12 @@ func (s *Stub) serveLookupd(w http.ResponseWriter, r *http.Request, cl *Cluster,
 	default:
 		writeJSON(w, 404, obj{"message": "NOT_FOUND"})
 	}
+}
+
+func mapOrder(node, topic string) uint32 {
+	h := fnv.New32a()
+	h.Write([]byte(node + "\x00" + topic))
+	return h.Sum32()
 }
 
 func sortedKeysL(m LNodeMap) []string {
